@@ -9,4 +9,5 @@ mod gen_c06;
 mod c07;
 pub mod c05;
 mod gen_c05;
-mod c07k2;
+pub mod c07k2;
+mod c07ctx;
